@@ -48,6 +48,9 @@ CONSTANTS
                  \*                       that moment (keyed hub members); a subscription without keys survives the flip
                  \*  "removal-unlocked":   keyedWriteRemoval deletes the key state under c.mu but writes the removal
                  \*                       publication after releasing it
+                 \*  "warm-class-only":    after the keyed-hub join only keys classified warm at trackKeys time get the
+                 \*                       post-join snapshot / needsBroadcast; a key the client tracked at the server's then
+                 \*                       current version whose entry advanced before the join is left behind
                  \*  "no-epoch-check":     epoch races: (a) a broadcast computed under one epoch is delivered to a
                  \*                       subscription of another epoch (the per-connection key state carries no
                  \*                       epoch), (b) the items of a response / publish are applied after a concurrent
@@ -122,7 +125,7 @@ NoTrackInFlight == \A c \in Conns : trk[c].k = None
 
 \* the SDK compares the epoch of the subscribe reply with the one it knew and forgets its versions when it changed
 Subscribe(c) ==
-  /\ ~sub[c] /\ ops < MaxOps /\ ops' = ops + 1
+  /\ ~sub[c] /\ trk[c].k = None /\ ops < MaxOps /\ ops' = ops + 1
   /\ sub' = [sub EXCEPT ![c] = TRUE] /\ cep' = [cep EXCEPT ![c] = sep]
   /\ IF cep[c] # sep
        THEN cver' = [cver EXCEPT ![c] = Zero] /\ cdata' = [cdata EXCEPT ![c] = Zero]
@@ -167,12 +170,23 @@ Track2(c) ==
   /\ LET k   == trk[c].k
          cls == trk[c].cls
          e   == entry[k]
+         \* the entry moved past what this connection has while it was not yet in the hub (reference: covered like warm)
+         ahead    == e.ex /\ ks[c][k].tr /\ e.ver > ks[c][k].ver /\ "warm-class-only" \notin AsCoded
+         cand     == cls = "warm" \/ ahead
          \* getWarmKeyData: versioned, KeepLatestData, entry has data
-         direct   == cls = "warm" /\ Versioned /\ e.ex /\ e.ver > 0 /\ e.data # 0
+         direct   == cand /\ Versioned /\ e.ex /\ e.ver > 0 /\ e.data # 0
          deliver  == direct /\ ks[c][k].tr /\ e.ver > ks[c][k].ver
-         deferred == cls = "warm" /\ ~direct
+         deferred == cand /\ ~direct
          flagNow  == deferred /\ e.ex /\ ~e.nb
-     IN /\ hub' = [hub EXCEPT ![k] = @ \cup {c}]
+     IN IF ~sub[c]
+          THEN \* the subscription ended while the command was between reply and join: the join is refused, the
+               \* reservation released (handleTrack step 5 re-validates under c.mu)
+               /\ pend' = [pend EXCEPT ![k] = @ - 1]
+               /\ entry' = IF hub[k] = {} /\ pend[k] = 1 THEN [entry EXCEPT ![k] = NoEntry] ELSE entry
+               /\ trk' = [trk EXCEPT ![c] = NoTrk]
+               /\ UNCHANGED <<hub, ks, cheld, cver, cdata, notifq>> /\ Silent
+          ELSE
+        /\ hub' = [hub EXCEPT ![k] = @ \cup {c}]
         /\ pend' = [pend EXCEPT ![k] = @ - 1]
         /\ trk' = [trk EXCEPT ![c] = NoTrk]
         /\ IF deliver
@@ -497,6 +511,15 @@ TypeOK == (\A k \in Keys : pend[k] >= 0) /\ ops <= MaxOps
 \* liveness: eventually every tracking connection has the newest payload of the key, for good
 AllFresh == \A c \in Conns, k \in Keys : cst[c][k] = "tracked" => cdata[c][k] = bk[k].data
 C25_Live == <>[]AllFresh
+
+\* Scenarios for witness configurations (negated as invariants): a track parked between reply and hub join while the
+\* entry of its key moved on; everything else at rest
+AtRest == \A t \in Threads : th[t].pc = "idle" /\ rv.pc = "idle" /\ notifq = <<>>
+ScnTrackWindowCached == \E c \in Conns : trk[c].k # None /\ AtRest /\ ks[c][trk[c].k].dr /\ entry[trk[c].k].ver > ks[c][trk[c].k].ver
+ScnTrackWindowSame   == \E c \in Conns : trk[c].k # None /\ AtRest /\ trk[c].cls = "none" /\ ks[c][trk[c].k].ver > 0
+                                          /\ entry[trk[c].k].ver > ks[c][trk[c].k].ver
+NotScnTrackWindowCached == ~ScnTrackWindowCached
+NotScnTrackWindowSame   == ~ScnTrackWindowSame
 
 View == <<bvars, svars, cvars, mvars, th, rv, ops>>
 =============================================================================
